@@ -34,7 +34,7 @@ func statusWrites(c *chk.Ctx, f *ssa.Function) []statusWrite {
 			v = cc.Args[0]
 		case ir.IsCallTo(cc, "net/http.Error"):
 			v = cc.Args[2]
-		case cc.StaticCallee() != nil && cc.StaticCallee().Name() == "writeJSON" && len(cc.Args) == 3:
+		case cc.StaticCallee() != nil && isStatusWriterHelper(c, cc.StaticCallee()) && len(cc.Args) == 3:
 			v = cc.Args[1]
 		default:
 			return
@@ -125,7 +125,85 @@ func describeHTTPCond(cd ir.Cond) string {
 			}
 		}
 	}
+	// membership of a looked-up value in a package-level list of string constants:
+	// slices.Contains(list, m[k]) — rendered with the list's elements
+	if call, ok := cd.V.(*ssa.Call); ok && ir.IsCallTo(&call.Call, "slices.Contains") && len(call.Call.Args) == 2 {
+		if g := globalLoad(call.Call.Args[0]); g != nil {
+			if elems, okE := globalStringList(g); okE {
+				lhs := "?"
+				x := call.Call.Args[1]
+				if e, isE := x.(*ssa.Extract); isE {
+					if lk, isLk := e.Tuple.(*ssa.Lookup); isLk {
+						if ks, isK := constString(lk.Index); isK {
+							lhs = "[" + ks + "]"
+						}
+					}
+				}
+				if lk, isLk := x.(*ssa.Lookup); isLk {
+					if ks, isK := constString(lk.Index); isK {
+						lhs = "[" + ks + "]"
+					}
+				}
+				sort.Strings(elems)
+				return neg + lhs + "∈{" + strings.Join(elems, ",") + "}"
+			}
+		}
+	}
 	return neg + "other"
+}
+
+// globalStringList returns the elements of a package-level []string variable
+// that is initialised with a literal of string constants and never assigned
+// elsewhere in its package.
+func globalStringList(g *ssa.Global) ([]string, bool) {
+	if g.Pkg == nil {
+		return nil, false
+	}
+	var elems []string
+	stores := 0
+	ok := true
+	for _, m := range g.Pkg.Members {
+		f, isF := m.(*ssa.Function)
+		if !isF {
+			continue
+		}
+		fs := append([]*ssa.Function{f}, f.AnonFuncs...)
+		for _, fn := range fs {
+			ir.Instrs(fn, func(ins ssa.Instruction) {
+				st, isSt := ins.(*ssa.Store)
+				if !isSt || st.Addr != ssa.Value(g) {
+					return
+				}
+				stores++
+				sl, isSl := st.Val.(*ssa.Slice)
+				if !isSl {
+					ok = false
+					return
+				}
+				al, isAl := sl.X.(*ssa.Alloc)
+				if !isAl {
+					ok = false
+					return
+				}
+				for _, r := range *al.Referrers() {
+					ia, isIA := r.(*ssa.IndexAddr)
+					if !isIA {
+						continue
+					}
+					for _, r2 := range *ia.Referrers() {
+						if st2, isSt2 := r2.(*ssa.Store); isSt2 {
+							if s, isS := constString(st2.Val); isS {
+								elems = append(elems, s)
+							} else {
+								ok = false
+							}
+						}
+					}
+				}
+			})
+		}
+	}
+	return elems, ok && stores == 1 && len(elems) > 0
 }
 
 func condStrings(conds []ir.Cond) []string {
@@ -161,6 +239,35 @@ func expandPredicateHelpersKeep(c *chk.Ctx, conds []ir.Cond, depth int, keep fun
 				}
 			}
 		}
+		// a comparison of a variable that holds one of several string constants (a message or
+		// mode chosen on earlier branches) with a constant: the outcome is that of the branches
+		// which chose a constant satisfying the comparison
+		if x, y, op, isRel := ir.Rel(cd); isRel && repl == nil && depth < 3 && (op == token.EQL || op == token.NEQ) {
+			phi, isPhi := x.(*ssa.Phi)
+			want, isK := constString(y)
+			if !isPhi {
+				phi, isPhi = y.(*ssa.Phi)
+				want, isK = constString(x)
+			}
+			if isPhi && isK {
+				allConst := true
+				var picked [][]ir.Cond
+				for i, e := range phi.Edges {
+					s, isS := constString(e)
+					if !isS {
+						allConst = false
+						break
+					}
+					if (s == want) == (op == token.EQL) {
+						pred := phi.Block().Preds[i]
+						picked = append(picked, expandPredicateHelpersKeep(c, ir.EdgeConds(pred, phi.Block()), depth+1, keep)...)
+					}
+				}
+				if allConst && len(picked) > 0 {
+					repl = picked
+				}
+			}
+		}
 		// the ok flag of a private helper with several results: v, ok := h(...)
 		if e, isE := cd.V.(*ssa.Extract); isE && depth < 3 && repl == nil {
 			if call, isCall := e.Tuple.(*ssa.Call); isCall {
@@ -168,10 +275,22 @@ func expandPredicateHelpersKeep(c *chk.Ctx, conds []ir.Cond, depth int, keep fun
 					constRet := true
 					var alts [][]ir.Cond
 					for _, r := range ir.Returns(h) {
-						k, isK := ir.ReturnResult(r, e.Index).(*ssa.Const)
+						rv := ir.ReturnResult(r, e.Index)
+						k, isK := rv.(*ssa.Const)
 						if !isK || k.Value == nil {
-							constRet = false
-							break
+							// a computed flag: its outcome is that of the returned expression, on
+							// top of the outcomes known at the return
+							if _, isParam := rv.(*ssa.Parameter); isParam {
+								constRet = false
+								break
+							}
+							for _, alt := range ir.CondAlternatives(ir.Cond{V: rv, Truth: cd.Truth}, 0) {
+								base := ir.CondsAt(r.Block())
+								for _, ex := range expandPredicateHelpersKeep(c, append(append([]ir.Cond{}, base...), alt...), depth+1, keep) {
+									alts = append(alts, dedupConds(ex))
+								}
+							}
+							continue
 						}
 						if (k.Value.String() == "true") == cd.Truth {
 							alts = append(alts, expandPredicateHelpersKeep(c, ir.CondsAt(r.Block()), depth+1, keep)...)
@@ -222,18 +341,31 @@ func expandPredicateHelpersKeep(c *chk.Ctx, conds []ir.Cond, depth int, keep fun
 		// h(...) == nil / != nil for a private helper with a pointer (or interface) result: the
 		// paths of h that return the nil constant, resp. a freshly allocated value
 		if x, eq, ok := ir.NilCompare(cd.V); ok && repl == nil && depth < 3 {
-			if call, isCall := x.(*ssa.Call); isCall {
-				if h := call.Call.StaticCallee(); h != nil && c.P.InRepo[h] && !ir.Exported(h) && h.Signature.Results().Len() == 1 {
+			resIdx := 0
+			call, isCall := x.(*ssa.Call)
+			if e, isE := x.(*ssa.Extract); isE {
+				// one result of a helper with several (value, err := h(...))
+				call, isCall = e.Tuple.(*ssa.Call)
+				resIdx = e.Index
+			}
+			if isCall {
+				if h := call.Call.StaticCallee(); h != nil && c.P.InRepo[h] && !ir.Exported(h) && resIdx < h.Signature.Results().Len() && (h.Signature.Results().Len() == 1 || x != ssa.Value(call)) {
 					wantNil := eq == cd.Truth
 					known := true
 					for _, r := range ir.Returns(h) {
-						v := ir.ReturnResult(r, 0)
+						v := ir.ReturnResult(r, resIdx)
 						var vals []ssa.Value
 						var conds [][]ir.Cond
 						if phi, isPhi := v.(*ssa.Phi); isPhi && phi.Block() == r.Block() {
 							for i, e := range phi.Edges {
 								vals = append(vals, e)
 								conds = append(conds, ir.EdgeConds(phi.Block().Preds[i], phi.Block()))
+							}
+						} else if as := ir.CondAltsAt(r.Block()); len(as) > 1 {
+							// a return shared by several tests (`if a || b { return … }`)
+							for _, a := range as {
+								vals = append(vals, v)
+								conds = append(conds, a)
 							}
 						} else {
 							vals = append(vals, v)
@@ -372,6 +504,8 @@ func ruleBridgeGate(c *chk.Ctx) {
 		case set["parseReq==nil"] && set[`Method=="POST"`] && set[`ParseMediaType#0=="application/json"`] && set["has[charset]"]:
 			if set[`[charset]=="utf-8"`] || set[`[charset]=="utf8"`] {
 				okUTF++
+			} else if set["[charset]∈{utf-8,utf8}"] {
+				okUTF += 2
 			} else {
 				allOK = false
 			}
@@ -390,7 +524,11 @@ func ruleBridgeGate(c *chk.Ctx) {
 				continue
 			}
 			for _, ctx := range c.P.Contexts(sw.ci, func(h *ssa.Function) bool { return h == f }) {
-				codes[sw.code] = append(codes[sw.code], strings.Join(condStrings(ctx), "∧"))
+				// (one write may serve several failures whose message was chosen earlier)
+				keepNil := func(cd ir.Cond) bool { _, _, isNil := ir.NilCompare(cd.V); return isNil }
+				for _, alt := range expandPredicateHelpersKeep(c, ctx, 0, keepNil) {
+					codes[sw.code] = append(codes[sw.code], strings.Join(condStrings(alt), "∧"))
+				}
 			}
 		}
 	}
@@ -710,7 +848,8 @@ func ruleGetterStatus(c *chk.Ctx) {
 		}
 		if bo, ok := cd.V.(*ssa.BinOp); ok && (bo.Op == token.EQL || bo.Op == token.NEQ) {
 			if k, isK := ir.ConstInt(bo.Y); isK && k == mnf {
-				if call, ok := bo.X.(*ssa.Call); ok && call.Call.StaticCallee() != nil && call.Call.StaticCallee().Name() == "ErrorCode" {
+				// (the code may reach a private status helper as a parameter)
+				if call, ok := c.P.Canon(bo.X).(*ssa.Call); ok && call.Call.StaticCallee() != nil && call.Call.StaticCallee().Name() == "ErrorCode" {
 					if (bo.Op == token.EQL) == cd.Truth {
 						return "mnf"
 					}
@@ -788,7 +927,12 @@ func ruleGetterStatus(c *chk.Ctx) {
 	}
 	c.Check(len(got) == 4, "TABLE.getter", f, "no other status", f.Pos(), "exactly four statuses", fmt.Sprintf("%d distinct statuses written", len(got)))
 	// writeJSON's body is a json.Marshal result on its success edge
-	wj := c.M.JhttpPkg.Func("writeJSON")
+	var wj *ssa.Function
+	for _, g := range pkgFuncs(c, c.M.JhttpPkg) {
+		if isStatusWriterHelper(c, g) {
+			wj = g
+		}
+	}
 	if wj != nil {
 		okBody := false
 		ir.Calls(wj, func(ci ssa.CallInstruction) {
@@ -961,21 +1105,21 @@ func ruleQueryParams(c *chk.Ctx) {
 func ruleBodiesClosed(c *chk.Ctx) {
 	// functions that receive a response struct from the channel's result channel
 	n := 0
+	recvFuncs := map[*ssa.Function]bool{}
+	for _, rr := range responseReceives(c) {
+		recvFuncs[rr.f] = true
+	}
 	for _, f := range pkgFuncs(c, c.M.JhttpPkg) {
-		var recvd []ssa.Value
 		ir.Instrs(f, func(ins ssa.Instruction) {
-			switch x := ins.(type) {
-			case *ssa.UnOp:
-				if x.Op == token.ARROW && strings.HasSuffix(x.X.Type().String(), "jhttp.response") {
-					recvd = append(recvd, x)
-				}
-			case *ssa.Next:
+			if x, ok := ins.(*ssa.Next); ok {
 				if rg, ok := x.Iter.(*ssa.Range); ok && strings.HasSuffix(rg.X.Type().String(), "jhttp.response") {
-					recvd = append(recvd, x)
+					recvFuncs[f] = true
 				}
 			}
 		})
-		if len(recvd) == 0 {
+	}
+	for _, f := range pkgFuncs(c, c.M.JhttpPkg) {
+		if !recvFuncs[f] {
 			continue
 		}
 		n++
@@ -1367,16 +1511,8 @@ func ruleLoop(c *chk.Ctx) {
 // the body, except the closed-channel edge and the edge where the response
 // carries a transport error (no response object).
 func ruleRecvClosesBody(c *chk.Ctx) {
-	for _, f := range pkgFuncs(c, c.M.JhttpPkg) {
-		var recv *ssa.UnOp
-		ir.Instrs(f, func(ins ssa.Instruction) {
-			if u, ok := ins.(*ssa.UnOp); ok && u.Op == token.ARROW && strings.HasSuffix(u.X.Type().String(), "jhttp.response") {
-				recv = u
-			}
-		})
-		if recv == nil {
-			continue
-		}
+	for _, rr := range responseReceives(c) {
+		f, recv := rr.f, rr.v
 		isClose := func(i ssa.Instruction) bool {
 			ci, ok := i.(ssa.CallInstruction)
 			return ok && ci.Common().IsInvoke() && ci.Common().Method.Name() == "Close" && strings.HasSuffix(ci.Common().Value.Type().String(), "io.ReadCloser")
@@ -1390,7 +1526,7 @@ func ruleRecvClosesBody(c *chk.Ctx) {
 				conds = c.P.CondsWithin(r, f)
 			}
 			for _, cd := range conds {
-				if e, ok := cd.V.(*ssa.Extract); ok && e.Tuple == ssa.Value(recv) && e.Index == 1 && !cd.Truth {
+				if e, ok := cd.V.(*ssa.Extract); ok && e.Tuple == recv && e.Index == 1 && !cd.Truth {
 					exempt = true
 				}
 				if x, eq, ok := ir.NilCompare(cd.V); ok && eq != cd.Truth {
@@ -1467,6 +1603,10 @@ func ruleQuerySliceBounds(c *chk.Ctx) {
 				// a private predicate helper applied to the same string: every way it can yield
 				// this outcome establishes the bound on its own parameter
 				call, isCall := cd.V.(*ssa.Call)
+				if e, isE := cd.V.(*ssa.Extract); isE {
+					// one of several results of the helper (whole, stray := quoting(s, q))
+					call, isCall = e.Tuple.(*ssa.Call)
+				}
 				if !isCall {
 					continue
 				}
@@ -1589,4 +1729,83 @@ func constTableValuesAllowed(c *chk.Ctx, v ssa.Value, allowed map[string]bool) (
 		return false, ""
 	}
 	return why == "", why
+}
+
+// isStatusWriterHelper: the HTTP package's private "write this status with
+// this JSON body" function, recognised by what it does: a plain function of a
+// ResponseWriter, a status code and a value that passes the code to WriteHeader.
+func isStatusWriterHelper(c *chk.Ctx, g *ssa.Function) bool {
+	if g == nil || g.Pkg != c.M.JhttpPkg || g.Signature.Recv() != nil || g.Parent() != nil || len(g.Params) != 3 || len(g.Blocks) == 0 {
+		return false
+	}
+	if !strings.HasSuffix(g.Params[0].Type().String(), "http.ResponseWriter") || g.Params[1].Type().String() != "int" {
+		return false
+	}
+	found := false
+	ir.Calls(g, func(ci ssa.CallInstruction) {
+		cc := ci.Common()
+		if cc.IsInvoke() && cc.Method.Name() == "WriteHeader" && len(cc.Args) == 1 && cc.Args[0] == ssa.Value(g.Params[1]) {
+			found = true
+		}
+	})
+	return found
+}
+
+// A respRecv is a place where an HTTP response struct is taken off the jhttp
+// channel's result channel: the receive itself, or — when the receiving
+// function is a mere accessor that returns what it received (value, or value
+// and ok flag, in that order) without touching it — each call of that accessor.
+// v is the receive / the call; with a comma-ok receive, extract #1 of v is the
+// ok flag either way.
+type respRecv struct {
+	f *ssa.Function
+	v ssa.Value
+}
+
+func responseReceives(c *chk.Ctx) []respRecv {
+	var out []respRecv
+	for _, f := range pkgFuncs(c, c.M.JhttpPkg) {
+		var recv *ssa.UnOp
+		ir.Instrs(f, func(ins ssa.Instruction) {
+			if u, ok := ins.(*ssa.UnOp); ok && u.Op == token.ARROW && strings.HasSuffix(u.X.Type().String(), "jhttp.response") {
+				recv = u
+			}
+		})
+		if recv == nil {
+			continue
+		}
+		// accessor: every return hands back exactly the received pieces, nothing else happens
+		accessor := f.Signature.Results().Len() >= 1 && strings.HasSuffix(f.Signature.Results().At(0).Type().String(), "jhttp.response") && !ir.Exported(f)
+		calls := 0
+		ir.Calls(f, func(ssa.CallInstruction) { calls++ })
+		if calls > 0 {
+			accessor = false
+		}
+		if accessor {
+			for _, r := range ir.Returns(f) {
+				for i := range r.Results {
+					v := ir.NormCell(ir.ReturnResult(r, i))
+					e, isE := v.(*ssa.Extract)
+					if recv.CommaOk {
+						if !isE || e.Tuple != ssa.Value(recv) || e.Index != i {
+							accessor = false
+						}
+					} else if v != ssa.Value(recv) {
+						accessor = false
+					}
+				}
+			}
+		}
+		sites := c.P.Callers(f)
+		if accessor && len(sites) > 0 && !c.P.UsedAsValue(f) {
+			for _, s := range sites {
+				if call, ok := s.Instr.(*ssa.Call); ok {
+					out = append(out, respRecv{s.Caller, call})
+				}
+			}
+			continue
+		}
+		out = append(out, respRecv{f, recv})
+	}
+	return out
 }
